@@ -111,6 +111,8 @@ func runC18(c *Ctx) {
 	checkCommitWalkerReleasesBeforeWaiting(c, "commit.walk.release-before-wait")
 	checkGenericErrorDiscipline(c, "pkg/fuse")
 	checkWriteKeepsFileSize(c, "write.size-from-backing-file")
+	checkFreeINodeSingleStep(c, "allocator.free-single-step")
+	checkTruncateOwnWritableHandle(c, "setattr.truncate-own-writable-handle")
 }
 
 // fieldWrites lists writes (assign, op-assign, inc/dec) to the struct field with the given ID in a package.
